@@ -330,6 +330,7 @@ package main
 //
 // ---- lock discipline (C20) ----
 //@ guarded BrokerContext.idToSnowflake by snowflakeLock
+//@ guarded Snowflake.index by BrokerContext.snowflakeLock
 //@ guarded Metrics.countryStats by lock
 //@ guarded Metrics.geoipdb by lock
 //@ guarded Metrics.clientRoundtripEstimate by lock
